@@ -143,7 +143,7 @@ func runC18(t *testing.T, s C18Scenario) (res Result) {
 				res.failf("HARNESS: server: %v", err)
 				return
 			}
-			_ = srv.Start(context.Background())
+			_ = startScoped(srv.Start)
 			servers = append(servers, srv)
 			ids = append(ids, ne.hosts[i+1].ID())
 		}
